@@ -19,7 +19,7 @@ def run(ctx) -> None:
                     "PatternNodeDeref.get_regex")
     res, stats = family_results(ctx)
     ctx.extra["skeleton_stats"] = stats
-    report(ctx, res, "C02", prefixes=("T.", "T1."), compile_tags=("times",))
+    report(ctx, res, "C02", prefixes=("T.", "T1.", "X.input"), compile_tags=("times",))
     # the body of a repeated group is exactly one occurrence: shape rules of the nodes that carry times
     timed = [r for r in res if getattr(r, "timed", False) and r.rule.split(".")[0] in
              ("A1", "A2", "A3", "N1", "N2", "R1", "R3", "D1")]
